@@ -100,3 +100,35 @@ def Not(x):
 def py_bool(P, v):
     """Truthiness of a returned value as z3 Bool (no forking where possible)."""
     return zbool(P.truth(v))
+
+
+BASE_EXC_REPS = ["ImportError", "ModuleNotFoundError", "ValueError", "AttributeError", "KeyError", "OSError", "SyntaxError",
+                 "UnicodeDecodeError", "RuntimeError", "KeyboardInterrupt", "SystemExit", "GeneratorExit", "BaseException"]
+
+
+def any_exception(P: Path, tag="exc", reps=None):
+    """An exception object of an arbitrary class (one representative per handler-equivalence class)."""
+    reps = reps or BASE_EXC_REPS
+    z = z3.Int(P._fresh_name(tag + "_cls"))
+    P.assume(z3.And(z >= 0, z < len(reps)))
+    return SObj(SCls(reps, z), {"args": ()})
+
+
+def raise_any(P: Path, tag="exc", reps=None):
+    raise PyExc(any_exception(P, tag, reps))
+
+
+def may_raise(P: Path, tag, reps=None):
+    """Fork: either return normally or raise an arbitrary exception."""
+    if P.branch(z3.Bool(P._fresh_name(tag + "_raises"))):
+        raise_any(P, tag, reps)
+
+
+def with_cm(P: Path, spec: str, args, body, star=None):
+    """Run `with <spec>(*args): body()` on the real generator-based context manager."""
+    from . import models
+    from .interp import StarArgs
+    clo = fn_closure(P, spec)
+    clo._nohook = True
+    a = list(args) + ([StarArgs(star)] if star is not None else [])
+    models.run_context_manager(P, ("gen_cm", clo, a, {}), lambda v: body())
